@@ -267,7 +267,9 @@ def run_case(case, rec, ctx):
     t0 = r_hel.transitions[0]
     constrained = [nd for nd in sorted(t0.topology.nodes) if t0.interactions[nd].parity_prefactor is not None]
     etas = [RH.eta(RH.node_info(t0, nd)) for nd in constrained]
-    feats = {"n_constrained_nodes": len(constrained), "unlike_eta": len(set(etas)) > 1, "kind": desc["kind"]}
+    fin = list(r_hel.final_state.values())
+    feats = {"n_constrained_nodes": len(constrained), "unlike_eta": len(set(etas)) > 1, "kind": desc["kind"],
+             "identical_spinful_particles": any([q.name for q in fin].count(p_.name) > 1 and p_.spin > 0 for p_ in fin)}
     rec.check(not inconsistent, "coefficient_inconsistent",
               f"{label}: the Clebsch-Gordan expansion demands two different values for one helicity coefficient: {inconsistent[:2]}",
               {"conflicts": [str(x) for x in inconsistent[:5]]}, feats)
